@@ -50,6 +50,15 @@ def trimRightByte (b : UInt8) (s : Bytes) : Bytes :=
 
 def str (s : String) : Bytes := s.toUTF8.toList
 
+/-- decimal digits (`%d`), fuel-bounded so that it reduces by `decide` -/
+def decNat : Nat → Nat → Bytes
+  | 0, _ => []
+  | f+1, n => if n < 10 then [UInt8.ofNat (48 + n)] else decNat f (n / 10) ++ [UInt8.ofNat (48 + n % 10)]
+
+def decInt : Int → Bytes
+  | .ofNat n => decNat 20 n
+  | .negSucc n => 45 :: decNat 20 (n + 1)
+
 def slash : UInt8 := 47
 def sepScheme : Bytes := [58, 47, 47]            -- "://"
 def mysqlBytes : Bytes := [109, 121, 115, 113, 108]   -- "mysql"
@@ -114,6 +123,13 @@ inductive Reject
   | emptyPrefix | dupPrefix | dupTree | backendName | backendSpec | dupBackendName | dupBackendSpec | undefinedBackend
 deriving Repr, DecidableEq
 
+instance instDecEqExcept {ε α} [DecidableEq ε] [DecidableEq α] : DecidableEq (Except ε α) := fun a b =>
+  match a, b with
+  | .ok x, .ok y => if h : x = y then isTrue (h ▸ rfl) else isFalse (fun e => by cases e; exact h rfl)
+  | .error x, .error y => if h : x = y then isTrue (h ▸ rfl) else isFalse (fun e => by cases e; exact h rfl)
+  | .ok _, .error _ => isFalse (fun e => by cases e)
+  | .error _, .ok _ => isFalse (fun e => by cases e)
+
 /-! ### ValidateLogConfig -/
 
 def ekuIsAny (n : String) : Bool := Gen.ekuTable.lookup n == some "x509.ExtKeyUsageAny"
@@ -145,33 +161,35 @@ def nsOf : Option Timestamp → Int
   | none => 0
   | some t => t.ns
 
-def validate (c : LogConfig) : Except Reject Unit := do
-  if Gen.cfgEmptyLogId c.logId then throw .logId
-  match c.pub with
-  | .bad => throw .pubKey
-  | .good => pure ()
-  | .absent =>
-    if c.isMirror then throw .mirrorNoPub
-    else if c.frozen.isSome then throw .frozenNoPub
-  if !c.isMirror then
-    match c.priv with
-    | .absent => throw .noPriv
-    | .bad => throw .badPriv
-    | .good => pure ()
-  else if c.priv != .absent then throw .mirrorPriv
-  if Gen.cfgRejectsAll c.rejectExpired c.rejectUnexpired then throw .rejectAll
-  if !ekusOk c.ekus then throw .eku
-  if !tsOk c.start then throw .startTs
-  if !tsOk c.limit then throw .limitTs
-  if Gen.cfgLimitBeforeStart c.start.isSome c.limit.isSome (nsOf c.start) (nsOf c.limit) then throw .window
-  if Gen.cfgMergeDelayBad c.mmd c.emd then throw .mergeDelay
-  match c.frozen with
-  | none => pure ()
-  | some f =>
-    if !f.verifier then throw .verifier
-    if !f.shape then throw .sthShape
-    if !f.sig then throw .sthSig
-  if c.storage = Gen.storageBackendCtfe then connOk c else pure ()
+/-- first rejecting check of a list of (rejecting condition, reason) pairs, in order. -/
+def firstErr : List (Bool × Reject) → Except Reject Unit
+  | [] => .ok ()
+  | (b, r) :: rest => if b then .error r else firstErr rest
+
+/-- the checks of `ValidateLogConfig` before the storage switch, in the order of the code; each entry is the
+condition under which that `return nil, err` is taken (given that the earlier ones were not). -/
+def rejections (c : LogConfig) : List (Bool × Reject) :=
+  [ (Gen.cfgEmptyLogId c.logId, .logId),
+    (c.pub == .bad, .pubKey),
+    (c.pub == .absent && c.isMirror, .mirrorNoPub),
+    (c.pub == .absent && !c.isMirror && c.frozen.isSome, .frozenNoPub),
+    (!c.isMirror && c.priv == .absent, .noPriv),
+    (!c.isMirror && c.priv == .bad, .badPriv),
+    (c.isMirror && c.priv != .absent, .mirrorPriv),
+    (Gen.cfgRejectsAll c.rejectExpired c.rejectUnexpired, .rejectAll),
+    (!ekusOk c.ekus, .eku),
+    (!tsOk c.start, .startTs),
+    (!tsOk c.limit, .limitTs),
+    (Gen.cfgLimitBeforeStart c.start.isSome c.limit.isSome (nsOf c.start) (nsOf c.limit), .window),
+    (Gen.cfgMergeDelayBad c.mmd c.emd, .mergeDelay),
+    (c.frozen.any (fun f => !f.verifier), .verifier),
+    (c.frozen.any (fun f => !f.shape), .sthShape),
+    (c.frozen.any (fun f => !f.sig), .sthSig) ]
+
+def validate (c : LogConfig) : Except Reject Unit :=
+  match firstErr (rejections c) with
+  | .error e => .error e
+  | .ok () => if c.storage = Gen.storageBackendCtfe then connOk c else .ok ()
 
 def accepts (c : LogConfig) : Bool := (validate c).isOk
 
@@ -239,7 +257,7 @@ def validateMulti (bs : List Backend) (l : List LogConfig) : Except Reject (List
       | .ok () => .ok names
 
 /-- the unchanged code's key: backend name, `-`, decimal tree id. -/
-def sprintfKey (name : Bytes) (id : Int) : Bytes := name ++ [45] ++ str (toString id)
+def sprintfKey (name : Bytes) (id : Int) : Bytes := name ++ [45] ++ decInt id
 
 /-! ### Handlers -/
 
